@@ -260,14 +260,19 @@ def load(f, **_options):
                 if signal.get("min") is not None:
                     new_signal.min = new_signal.float_factory(signal["min"])
 
-                if signal.get("max", False):
+                if signal.get("max") is not None:
                     new_signal.max = new_signal.float_factory(signal["max"])
 
                 if signal.get("unit", False):
                     new_signal.unit = signal["unit"]
 
-                if signal.get("multiplex", False):
-                    new_signal.multiplex = signal["multiplex"]
+                if signal.get("multiplex") is not None:
+                    # through the setter: it derives is_multiplexer / mux_val; selector value 0 is a value
+                    new_signal.multiplex = new_signal.multiplex_setter(signal["multiplex"])
+                if signal.get("muxer_for_signal") is not None:
+                    new_signal.muxer_for_signal = signal["muxer_for_signal"]
+                if signal.get("mux_val_grp"):
+                    new_signal.mux_val_grp = [list(group) for group in signal["mux_val_grp"]]
 
                 if signal.get("values", False):
                     for key in signal["values"]:
